@@ -350,9 +350,13 @@ def _warm(plan):
         g._get_normalizer_issues(m)
 
 
+FIRST_USE_MODULES = ('parso.grammar', 'parso.python.tokenize')
+
+
 def child_reference(plan):
     from . import fingerprint
     _warm(plan)
+    fp0 = fingerprint.fingerprint(True)
     out = {}
     order = [(t, j) for t in range(len(plan['threads'])) for j in range(len(plan['threads'][t]))]
     for (t, j) in order:
@@ -362,7 +366,7 @@ def child_reference(plan):
     for (t, j) in order:
         out2['%d.%d' % (t, j)] = op_outcome(plan['threads'][t][j])
     fp2 = fingerprint.fingerprint(True)
-    return {'outcomes': out, 'outcomes2': out2, 'fp1': fp1, 'fp2': fp2}
+    return {'outcomes': out, 'outcomes2': out2, 'fp0': fp0, 'fp1': fp1, 'fp2': fp2}
 
 
 def child_concurrent(plan, generate, seed):
@@ -445,6 +449,10 @@ STATEFUL_TEXTS = [
     "def f(x=3, y): pass\nf(x=1, x=2)\nf(**x, y)\n*a = b\n",
     "class X:\n  def f(self):\n      pass\n\n\n\n  x=1;y = 2 \nimport os, sys\n",
     "tmp_a = 1\ndef tmp_f(tmp_x):\n    pass\n",
+    "from __future__ import annotations\nx: int = 1\n",
+    "from __future__ import whatever\nfrom __future__ import annotations, division\n",
+    "[x := i for i in range(5)]\n[i := 0 for i, j in range(5)]\nprint([(y := f(x), y**2) for x in data])\n",
+    "[i+1 for i in (i := range(5))]\n{(a := 1): (b := 2) for a in c for b in d}\n",
 ]
 
 
@@ -583,6 +591,14 @@ def evaluate(plan, generate, seed, reference=None):
                                % (key, op['k'], op['v'], op.get('text', '')[:60], _short(r['outcomes'][key]),
                                   _short(r['outcomes2'][key]))}
                 break
+    if v is None:
+        # first-use memoisation lives in the loaded-grammar and token-collection tables; state of any
+        # other module that is different after the calls was modified by them
+        changed = sorted(k for k in r['fp1'] if r['fp0'].get(k) != r['fp1'][k] and k not in FIRST_USE_MODULES)
+        if changed:
+            v = {'clause': 'state-modified-by-calls', 'sig': 'state-modified-by-calls:' + ','.join(changed)[:80],
+                 'detail': 'the calls changed shared state of %s (first-use memoisation is only expected in %s)'
+                           % (changed, list(FIRST_USE_MODULES))}
     if v is None and r['fp1'] != r['fp2']:
         diff = sorted(k for k in r['fp1'] if r['fp1'][k] != r['fp2'].get(k))
         v = {'clause': 'state-not-write-once', 'sig': 'state-not-write-once:' + ','.join(diff)[:80],
